@@ -394,8 +394,10 @@ def hoisted_initialisations(code_fn, ref_fn):
     cb, co, cf = _fresh_binds(code_fn)
     rb, _ro, rf = _fresh_binds(ref_fn)
     out = []
+    emptied = {n.func.value.id for n in ast.walk(code_fn) if isinstance(n, ast.Call) and isinstance(n.func, ast.Attribute) and n.func.attr == "clear" and isinstance(n.func.value, ast.Name)}
+    emptied |= {t.value.id for n in ast.walk(code_fn) if isinstance(n, ast.Delete) for t in n.targets if isinstance(t, ast.Subscript) and isinstance(t.value, ast.Name)}
     for name, bs in cb.items():
-        if name in co or name not in cf or any(inl for _n, inl in bs):
+        if name in co or name not in cf or any(inl for _n, inl in bs) or name in emptied:
             continue
         if name in rb and name in rf and any(inl for _n, inl in rb[name]):
             out.append((name, bs[0][0]))
